@@ -16,9 +16,18 @@ package dataflow
 
 import "golang.org/x/tools/go/ssa"
 
+// builtinName returns the name of the builtin function called if value is a builtin, and the empty string
+// otherwise. A user-defined function, a parameter or a variable can have the same name as a builtin.
+func builtinName(value ssa.Value) string {
+	if builtin, ok := value.(*ssa.Builtin); ok {
+		return builtin.Name()
+	}
+	return ""
+}
+
 func isHandledBuiltinCall(instruction ssa.CallInstruction) bool {
 	if instruction.Common().Value != nil {
-		switch instruction.Common().Value.Name() {
+		switch builtinName(instruction.Common().Value) {
 		// for append, copy we simply propagate the taint like in a binary operator
 		case "ssa:wrapnilchk":
 			return true
@@ -62,7 +71,7 @@ func doBuiltinCall(t *IntraAnalysisState, callValue ssa.Value, callCommon *ssa.C
 		return false
 	}
 	if callCommon.Value != nil {
-		switch callCommon.Value.Name() {
+		switch builtinName(callCommon.Value) {
 		// for append, copy we simply propagate the taint like in a binary operator
 		case "ssa:wrapnilchk":
 			for _, arg := range callCommon.Args {
